@@ -1264,6 +1264,10 @@ class Lowerer:
         name = c['name']
         inits = [x for x in c.get('inner', []) if isinstance(x, dict) and x.get('kind')]
         init = inits[0] if inits else None
+        if init is not None and 'type' in init and not self.resolvable(t):
+            # sugar clang left in the declared type (value_type, auto&, ...): the initialiser's type is canonical
+            it = self.ty(init['type']).noref()
+            t = Ty('ref', to=it) if t.kind == 'ref' else it
         static = 'static ' if c.get('storageClass') == 'static' else ''
         if c.get('storageClass') == 'static' and not c.get('constexpr') and 'const' not in c['type']['qualType']:
             raise Unsupported('mutable function-local static %s' % name)
@@ -1297,6 +1301,14 @@ class Lowerer:
                 self.note('trivial default construction of %s left uninitialised (as in C++) at %s' % (t.name, where(c)))
                 return ln + I + self.cdecl(t, name) + ';\n'
         return ln + I + static + '%s = %s;\n' % (self.cdecl(t, name), self.expr(init))
+
+    def resolvable(self, t):
+        b = t
+        while b.kind in ('ref', 'ptr', 'arr'):
+            b = b.to
+        if b.kind != 'rec':
+            return True
+        return b.key in self.idx.records or bool(re.match(r'^(std::(pair|array|vector|atomic)<.*>|tbb::.*)$', b.key)) and not re.search(r'>::\w+$', b.key)
 
     def decomp(self, c, d):
         raise Unsupported('structured binding at %s' % where(c))
